@@ -300,8 +300,9 @@ def build(manifest):
     f['remove_expired_browse_continuation_points'] = h
     h = f['remove_browse_continuation_points']
     if rewrites.count('D18 retain over self.browse_continuation_points') >= 2 and re.search(r'^\s*while\b', h, re.M):
-        h = splice_at(h, r'^\s*while\b', '''        let ghost q0 = self.browse_continuation_points@;
-        let ghost mut done: int = 0;''', before=True)
+        # ghost state at the start of the body (visible in the whole function, wherever the loop ends up)
+        h = splice_body_start(h, '''        let ghost q0 = self.browse_continuation_points@;
+        let ghost mut done: int = 0;''')
         h = splice_loop(h, 0, '''            invariant 0 <= done <= q0.len(), idx_continuation_point <= self.browse_continuation_points@.len(),
                 self.max_browse_continuation_points == old(self).max_browse_continuation_points,
                 forall|x: Option<Seq<u8>>| #[trigger] continuation_points_set.ids().contains(x) == (exists|i: int| 0 <= i < continuation_points@.len() && bs(#[trigger] continuation_points@[i]) == x),
